@@ -13,6 +13,8 @@ obligations on it, keys on incidental syntax.
   split-and     `if a and b: X`           ->  `if a:` / `if b: X`      (no else)
   drop-else     `if T: ..return else: B`  ->  `if T: ..return` ; B
   add-else      `if T: ..return` ; rest   ->  `if T: ..return else: rest`
+  augassign-expand  `T += 1`              ->  `T = T + 1`   (numeric constants only)
+  listcomp-to-loop  `X = [E for v in IT]`  ->  `X = []` / `for v_: X.append(E)`
   extract-guard `if T: raise E`           ->  `_guardN(a, b)` + module-level `def _guardN(a, b): if T: raise E`
 """
 import ast
@@ -226,7 +228,72 @@ class ExtractGuard(_Base):
     return node
 
 
-TRANSFORMS = {c.name: c for c in (ReturnTemp, TestTemp, SwapElse, SplitAnd, DropElse, AddElse, ExtractGuard)}
+class AugAssignExpand(_Base):
+  """`T += <number>`  ->  `T = T + <number>`  (T a name or an attribute of a name;
+  numbers only: for lists `+=` is in place and not the same thing)."""
+  name = 'augassign-expand'
+
+  def rewrite_stmt(self, st):
+    if self.depth and isinstance(st, ast.AugAssign) and isinstance(st.value, ast.Constant) \
+        and isinstance(st.value.value, (int, float)) and not isinstance(st.value.value, bool) \
+        and (isinstance(st.target, ast.Name) or (isinstance(st.target, ast.Attribute)
+                                                 and isinstance(st.target.value, ast.Name))):
+      import copy
+      self.count += 1
+      load = copy.deepcopy(st.target)
+      load.ctx = ast.Load()
+      return [ast.Assign(targets=[st.target], value=ast.BinOp(left=load, op=st.op, right=st.value),
+                         lineno=st.lineno)]
+    return [st]
+
+
+class ListCompToLoop(_Base):
+  """`X = [E for v in IT if C]` (one generator, plain name target) ->
+  `X = []` / `for v_ in IT: if C: X.append(E)` with a fresh loop variable."""
+  name = 'listcomp-to-loop'
+
+  def rewrite_stmt(self, st):
+    if not (self.depth and isinstance(st, ast.Assign) and len(st.targets) == 1 and isinstance(st.targets[0], ast.Name)
+            and isinstance(st.value, ast.ListComp) and len(st.value.generators) == 1
+            and not st.value.generators[0].is_async):
+      return [st]
+    lc = st.value
+    gen = lc.generators[0]
+    x = st.targets[0].id
+    bad = (ast.NamedExpr, ast.Lambda, ast.Yield, ast.YieldFrom, ast.Await, ast.ListComp, ast.SetComp,
+           ast.DictComp, ast.GeneratorExp)
+    inner = [lc.elt] + list(gen.ifs) + [gen.iter]
+    if any(isinstance(n, bad) for e in inner for n in ast.walk(e)):
+      return [st]
+    # X itself must not be read by the comprehension (it would see the empty list)
+    if any(isinstance(n, ast.Name) and n.id == x for e in inner for n in ast.walk(e)):
+      return [st]
+    tv = [n.id for n in ast.walk(gen.target) if isinstance(n, ast.Name)]
+    self.uid += 1
+    ren = {v: f'{v}_lc{self.uid}' for v in tv}
+
+    class R(ast.NodeTransformer):
+      def visit_Name(self, node):
+        if node.id in ren:
+          node.id = ren[node.id]
+        return node
+    r = R()
+    target = r.visit(gen.target)
+    elt = r.visit(lc.elt)
+    ifs = [r.visit(c) for c in gen.ifs]
+    self.count += 1
+    body = [ast.Expr(value=ast.Call(func=ast.Attribute(value=ast.Name(id=x, ctx=ast.Load()), attr='append',
+                                                        ctx=ast.Load()), args=[elt], keywords=[]))]
+    if ifs:
+      test = ifs[0] if len(ifs) == 1 else ast.BoolOp(op=ast.And(), values=ifs)
+      body = [ast.If(test=test, body=body, orelse=[])]
+    return [ast.Assign(targets=[ast.Name(id=x, ctx=ast.Store())], value=ast.List(elts=[], ctx=ast.Load()),
+                       lineno=st.lineno),
+            ast.For(target=target, iter=gen.iter, body=body, orelse=[], lineno=st.lineno)]
+
+
+TRANSFORMS = {c.name: c for c in (ReturnTemp, TestTemp, SwapElse, SplitAnd, DropElse, AddElse, ExtractGuard,
+                                  AugAssignExpand, ListCompToLoop)}
 
 
 def transform_source(src, name):
